@@ -111,6 +111,8 @@ def gen(tier, rng):
     n = 1200 if tier == "quick" else 12000
     cases = fault_injection(tier, rng)
     cases += [("read-then-dispose:%d" % i, p) for i, p in enumerate(read_then_dispose(rng, 5))]
+    import c04
+    cases += [(t, p[:-1]) for t, p in c04.cleanup_creates()]        # F20 shapes, without the final root disposal
     cases += [("random:%d" % i, p) for i, p in
               enumerate(reactive_gen.random_programs(rng.randrange(1 << 30), n, FEATS, (4, 9), (3, 8), max_nodes=10))]
     return cases
